@@ -119,3 +119,35 @@ verus_unit(
     },
 )
 lemma("lemmas_ans.rs", ["C01", "C04", "C12"])
+
+# =====================================================================================
+# C17  Word sources and sinks honour their contracts  (+ C20 Cursor invariant)
+# =====================================================================================
+prop("C17", explanation="each provided backend operation against the ghost stack/queue contract: one operation at a time "
+     "from every reachable (buffer, pos) with buffers of <= 4 symbolic words; buffers of any length: Verus unit on the extracted Cursor text")
+B = "backends.rs::"
+for h, fns, txt in [
+    ("cursor_constructors", ["Cursor::new_at_pos", "Cursor::new_at_pos_mut", "Cursor::new_at_write_beginning", "Cursor::new_at_write_end", "Cursor::new_at_write_end_mut"], "new_at_pos(buf,pos) is Ok iff pos <= len; pos() reports it"),
+    ("cursor_stack_read", ["<Cursor as ReadWords<Stack>>::read", "<Cursor as BoundedReadWords<Stack>>::remaining"], "pos==0 => None (sticky), else Some(buf[pos-1]) and pos-1; remaining()==pos"),
+    ("cursor_queue_read", ["<Cursor as ReadWords<Queue>>::read", "<Cursor as BoundedReadWords<Queue>>::remaining"], "pos==len => None (sticky), else Some(buf[pos]) and pos+1; remaining()==len-pos"),
+    ("cursor_write", ["<Cursor as WriteWords>::write", "<Cursor as BoundedWriteWords>::space_left"], "write Ok iff pos<len, stores at buf[pos], frame: no other word changes; space_left()==len-pos"),
+    ("cursor_seek", ["<Cursor as Seek>::seek", "<Cursor as Pos>::pos", "<Reverse as Seek>::seek"], "seek(p) Ok iff p<=len, then pos()==p; refused seek leaves pos"),
+    ("reverse_cursor_write", ["<Reverse<Cursor> as WriteWords>::write", "<Reverse<Cursor> as BoundedWriteWords>::space_left"], "write Ok iff pos>0, stores at buf[pos-1]; space_left()==pos"),
+    ("reverse_cursor_read", ["<Reverse as ReadWords<Queue>>::read", "<Reverse as ReadWords<Stack>>::read", "<Reverse as BoundedReadWords>::remaining"], "Reverse swaps semantics"),
+    ("cursor_into_reversed", ["Cursor::into_reversed", "Reverse<Cursor>::into_reversed"], "read after in-place reversal == read before; twice == identity"),
+    ("cursor_into_reversed_write", ["Cursor::into_reversed", "<Reverse<Cursor> as WriteWords>::write"], "write after in-place reversal lands at the same logical index; free space unchanged"),
+    ("vec_backend", ["<Vec as WriteWords>::write", "<Vec as ReadWords<Stack>>::read", "<Vec as Seek>::seek", "<Vec as Pos>::pos"], "Vec is a LIFO; seek truncates; beyond end refused"),
+]:
+    kani("backends::" + h, ["C17", "C20"], fns=[B + f for f in fns], text=txt)
+kani("backends::smallvec_backend", ["C17"], kind="bounded", bound="SmallVec<[u8;2]> with <= 3 words", fns=[B + "SmallVec impls"])
+kani("backends::adapters", ["C17"], kind="bounded", bound="3-word iterator, 2 callback writes", fns=[B + "FallibleIteratorReadWords", B + "InfallibleCallbackWriteWords", B + "FallibleCallbackWriteWords"])
+claim("C17", "Every operation of Cursor / Reverse<Cursor> / Vec checked against the stack/queue contract from every (buffer,pos) "
+      "with <= 4 symbolic words (complete per operation: loop-free, full symbolic state); SmallVec and adapters bounded.",
+      "Kani bit-precise on the real impls incl. get_unchecked; buffers longer than 4 words rely on the Verus Cursor unit / genericity in the length",
+      "function contracts per backend operation (Kani)")
+NOT_APPLICABLE.pop("C17", None)
+
+prop("C20", explanation="per type with unsafe code: constructors establish the invariant, every safe method preserves it, the invariant implies each "
+     "unsafe precondition; Kani's automatic pointer/unsafe-precondition/overflow checks located in /repo/src are the obligations")
+kani("backends::cursor_buf_mut_then_read", ["C20"], fns=[B + "Cursor::buf_mut", B + "<Cursor as ReadWords<Stack>>::read"],
+     text="safe sequence new_at_write_end(vec).buf_mut().truncate(k); stack read() must not index out of bounds")
